@@ -1015,6 +1015,9 @@ func TestVerifC12(t *testing.T) {
 		for i := 0; i < n; i++ {
 			p := defaultProfile()
 			p.name, p.maxTicks = "offsets", 40
+			if i%3 == 0 {
+				p.stall = 60 // zero-window episodes: probe deadlines are absolute clock values too
+			}
 			base := genCoreCfg(rng, p)
 			hseed := rng.u64()
 			var ref []string
@@ -1022,7 +1025,8 @@ func TestVerifC12(t *testing.T) {
 			offs := [][3]uint32{{0, 0, 0}, {1<<31 - w, 1<<31 - w/2, 1<<31 - 40*w}, {0xffffffff - w, 5, 0xffffffff - 7*w},
 				{uint32(rng.u64()), uint32(rng.u64()), uint32(rng.u64())}, {0xffffffff, 0xffffffff, 0xffffffff}}
 			wrapped := false
-			for j, o := range offs {
+			for j := 0; j < len(offs); j++ {
+				o := offs[j]
 				cfg := base
 				cfg.Isn = [2]uint32{o[0], o[1]}
 				cfg.Clock = o[2]
@@ -1036,6 +1040,12 @@ func TestVerifC12(t *testing.T) {
 				rep.Steps += len(s.ops)
 				wrapped = wrapped || info.wrapped
 				rep.Monitors["trace-shift-equal"]++
+				if j == 0 && s.probeSeen {
+					// one more run with the clock shifted so that the first probe deadline is exactly 0 (a value
+					// that code may mistake for "not set"); and one with it exactly 2^31
+					offs = append(offs, [3]uint32{uint32(rng.u64()), uint32(rng.u64()), 0 - s.probeRel}, [3]uint32{7, 9, 1<<31 - s.probeRel})
+					rep.Distribution["probe-deadline-on-zero-run"]++
+				}
 				if j == 0 {
 					ref = s.trace
 					if i < 2 {
